@@ -194,7 +194,7 @@ def e2e_job(job):
            'files': [{'reach': 'named', 'class': 'shrinks', 'post': what, 'readlen': len(RICH),
                       'apilen': len(api) if api is not None else 0, 'api_is_pre': False, 'opened_w': opened_w,
                       'opened_r': not via_stdin}],
-           'exit': int(res['exit']), 'exc': res['exc'], 'outw': outw, 'sout': sout, 'order': [1], 'listed': 0}
+           'exit': int(res['exit']), 'exit2': int(res['exit_script']), 'exc': res['exc'], 'outw': outw, 'sout': sout, 'order': [1], 'listed': 0}
     if rejected:
         rec['shape'] = 'stdin_and_file'      # judged as a documented rejection: non-zero exit and nothing written
         rec['order'] = []
